@@ -2,8 +2,10 @@ package lib
 
 import (
 	"context"
+	"errors"
 	"io"
 	"sort"
+	"strings"
 
 	"github.com/a-h/templ"
 )
@@ -27,6 +29,50 @@ func Fn(id string) templ.Component {
 			return err
 		}
 		_, err := io.WriteString(w, `</x-fn>`)
+		return err
+	})
+}
+
+// ErrLimit makes unbounded recursion inside a component's own writer observable.
+var ErrLimit = errors.New("verif: output limit of a component's own writer exceeded (unbounded recursion)")
+
+type boundedBuilder struct {
+	sb strings.Builder
+}
+
+func (b *boundedBuilder) Write(p []byte) (int, error) {
+	if b.sb.Len()+len(p) > 1<<16 {
+		return 0, ErrLimit
+	}
+	return b.sb.Write(p)
+}
+
+// Fo follows the same protocol as Fn but renders its children into a writer of its OWN (as a component does that
+// post-processes, measures or caches its children) and then copies the result to the writer it was given.
+func Fo(id string) templ.Component {
+	return templ.ComponentFunc(func(ctx context.Context, w io.Writer) error {
+		children := templ.GetChildren(ctx)
+		ctx = templ.ClearChildren(ctx)
+		var own boundedBuilder
+		if err := children.Render(ctx, &own); err != nil {
+			return err
+		}
+		_, err := io.WriteString(w, `<x-fo id="`+id+`">`+own.sb.String()+`</x-fo>`)
+		return err
+	})
+}
+
+// Fh renders its children with templ.ToGoHTML (as one does to hand them to html/template) and writes the result.
+// Only used in tree families without Once/Flush: the pooled buffer of ToGoHTML is not bounded.
+func Fh(id string) templ.Component {
+	return templ.ComponentFunc(func(ctx context.Context, w io.Writer) error {
+		children := templ.GetChildren(ctx)
+		ctx = templ.ClearChildren(ctx)
+		html, err := templ.ToGoHTML(ctx, children)
+		if err != nil {
+			return err
+		}
+		_, err = io.WriteString(w, `<x-fh id="`+id+`">`+string(html)+`</x-fh>`)
 		return err
 	})
 }
